@@ -485,6 +485,31 @@ pub enum Item {
     Sweep(Sweep),
     Table(Table),
     Co(CoCase),
+    Drv(crate::props::c08::HCase),
+}
+
+/// Part 4: the blocking helpers of every driver against notification-driven / late / polling
+/// devices, for every combination of the two ring features. Only lost wake-ups are judged here
+/// (everything else the driver's reference device notices belongs to that driver's property).
+pub fn drivers(c: &crate::props::c08::HCase, st: &mut Stats) -> Result<(), String> {
+    let mut scratch = Stats::default();
+    match crate::props::c08::usage(c, &mut scratch) {
+        Ok(()) => {}
+        // "(was it notified?)": a non-blocking submission the notification-driven device never saw
+        Err(m) if m.contains("lost wake-up") || m.contains("was it notified?") => return Err(format!("{:?} on {:?} offered {:#x} policy {:?}: {}", c.drv, c.kind, c.offered, c.policy, m)),
+        Err(_) => st.class("driver_run_stopped_by_another_oracle"),
+    }
+    st.class("driver_blocking_helper_runs");
+    let mut s = Sig::new();
+    s.add(0xd7).add(c.drv as u64).add(c.kind as u64).add(c.offered).add(match c.policy {
+        Serve::OnNotify => 1,
+        Serve::Poll => 2,
+        Serve::Late(n) => 3 + n as u64,
+    });
+    if !matches!(c.policy, Serve::Poll) {
+        st.nontrivial(s.get(), || json!(c));
+    }
+    Ok(())
 }
 
 pub fn replay(engine: &str, case: &serde_json::Value) -> Result<(), String> {
@@ -505,6 +530,7 @@ pub fn replay(engine: &str, case: &serde_json::Value) -> Result<(), String> {
                 Item::Sweep(s) => sweep(s, &mut st),
                 Item::Table(t) => table(t, &mut st),
                 Item::Co(c) => cosim(c, &mut st),
+                Item::Drv(c) => drivers(c, &mut st),
             }
         }
     }
@@ -573,10 +599,22 @@ pub fn run(ctx: &Ctx) -> Report {
             }
         }
     }
+    // every driver's blocking helpers, every combination of the two ring features, three policies
+    for drv in crate::props::c08::ALL_D {
+        for kind in [crate::tkind::TK::Model, crate::tkind::TK::MmioModern, crate::tkind::TK::Pci, crate::tkind::TK::MmioLegacy] {
+            for m in 0..4u64 {
+                for policy in [Serve::OnNotify, Serve::Late(2), Serve::Poll] {
+                    let offered = (m & 1) << 28 | (m >> 1) << 29 | 1 << 32 | (drv.supported() & 0xffff_ffff & !(1 << 28 | 1 << 29));
+                    items.push(Item::Drv(crate::props::c08::HCase { drv, kind, offered, policy, legacy_raw_offer: false }));
+                }
+            }
+        }
+    }
     let (st, mut failure) = run_items(ctx, "items", items, |it: &Item, st| match it {
         Item::Sweep(s) => sweep(s, st),
         Item::Table(t) => table(t, st),
         Item::Co(c) => cosim(c, st),
+        Item::Drv(c) => drivers(c, st),
     });
     stats.merge(st);
     if failure.is_none() {
@@ -597,7 +635,7 @@ pub fn run(ctx: &Ctx) -> Report {
         failure,
         info: PartInfo {
             level: "exploration",
-            rule: "(1) event-index sweep: for every queue size in the tier, every batch size b<=N and every placement of avail_event relative to the window [old,new) (each position inside, the two just outside, the far side), walk the real queue through all 65536 index values (one independent should_notify scenario per window) and require vring_need_event(event,new,old) => should_notify(); plus, when the implementation is observed to be stateless, the full 65536x65536 (available index, avail_event) table. (2) queue histories: flag mode equivalence, set_dev_notify as read by the device, used_event after each consumed completion. (3) co-simulation of add_notify_wait_pop against OnNotify / Poll / Late devices through the spin hook, incl. runs of >65536 calls: returns, with the recorded length, within the policy's turn bound, having notified iff asked. Non-trivial = a sweep/table item that includes windows crossing 65535->0, or a co-simulation in which the device would sleep forever without the notification; distinct = item parameters / (config, call shapes, policy switches).",
+            rule: "(1) event-index sweep: for every queue size in the tier, every batch size b<=N and every placement of avail_event relative to the window [old,new) (each position inside, the two just outside, the far side), walk the real queue through all 65536 index values (one independent should_notify scenario per window) and require vring_need_event(event,new,old) => should_notify(); plus, when the implementation is observed to be stateless, the full 65536x65536 (available index, avail_event) table. (2) queue histories: flag mode equivalence, set_dev_notify as read by the device, used_event after each consumed completion. (3) co-simulation of add_notify_wait_pop against OnNotify / Poll / Late devices through the spin hook, incl. runs of >65536 calls: returns, with the recorded length, within the policy's turn bound, having notified iff asked. (4) every driver's blocking helpers (11 drivers x 4 transports x {INDIRECT, EVENT_IDX} subsets x OnNotify / Late / Poll) on the driver's reference device, whose unused suppression field carries a decoy: no call may wait on a queue with entries the device was never told about. Histories (2) also check should_notify against vring_need_event over the window since the previous check, whatever was popped in between. Non-trivial = a sweep/table item that includes windows crossing 65535->0, or a co-simulation in which the device would sleep forever without the notification; distinct = item parameters / (config, call shapes, policy switches).",
             assumptions: vec![
                 "the co-simulated device re-arms avail_event / used.flags after every service turn and re-checks the ring, as the specification requires of devices".into(),
                 "blocking helpers of the individual drivers are exercised against notification-driven devices in the driver checks (C14-C20); this check covers the shared helper on the raw queue".into(),
